@@ -189,7 +189,11 @@ RULES = {
            "to_generic_encoder_model, to_generic_decoder_model (+ its quantile_function), lazy vs eager _fast on the same table (f32 and "
            "f64), contiguous vs non-contiguous encoder/decoder with identity relabelling (_fast with _fast, _perfect with _perfect), lookup "
            "_fast/_perfect vs searched, lookup as_view / as_contiguous_categorical / as_non_contiguous_categorical, quantised distributions "
-           "(see leaky target); non-trivial = >= 2 representations compared on a model with >= 3 symbols",
+           "(see leaky target); every conversion reachable from a contiguous model (to_lookup_decoder_model, From<&model> impls, from_iterable_entropy_model "
+           "of the three generic models, to_generic_lookup_decoder_model, as_/into_contiguous_categorical, as_/into_non_contiguous_categorical, "
+           "conversions of converted models); 1/8 of the cases with an explicit normalisation put it slightly above the exact sum; a panic inside "
+           "a conversion, view, iterator or accessor of a validated model is a violation; non-trivial = >= 2 representations compared on a "
+           "model with >= 3 symbols",
     "C19": "case = as C03 but with HOSTILE inputs: float tables of any length with negative, tiny negative, NaN, +-inf, -0, denormal, huge "
            "entries and arbitrary user normalization; fixed-point tables with zeros, oversized entries, sums below / above 2^P, one or two "
            "laps at P == bits, a single entry, empty, with and without infer_last_probability; symbol lists shorter / longer than the "
